@@ -39,8 +39,16 @@ def check(ctx):
 
     def r1b():
         s, ex = summarise(p, g, args={'total_calls': N, 'calls': c, 'rank': r, 'world': W})
-        check_equal(ctx, 'R1.after', fsite(g), 'discard_after(N, c, r, W)', s.ret,
-                    F.split_after(N, c, r, W))
+        plain = sub(sub(N, F.split_before(N, r, W)), c)
+        if algebra.equal(algebra.minmax_to_ite(T.canon_idx(s.ret)), algebra.minmax_to_ite(T.canon_idx(plain)))[0]:
+            # without the clamp: the same value wherever before + calls <= total, which the tiling identity gives for
+            # the share every driver passes (before(r) + sub(r) = before(r+1) <= N; R2 decides that the call sites
+            # pass exactly that share)
+            ctx.holds('R1.after', fsite(g), 'discard_after(N, c, r, W) = N - before - c (the clamp at 0 is never '
+                      'active for the canonical share, which R2 establishes at every call site)')
+        else:
+            check_equal(ctx, 'R1.after', fsite(g), 'discard_after(N, c, r, W)', s.ret,
+                        F.split_after(N, c, r, W))
     ctx.guard('R1.after', fsite(g), r1b)
 
     # R1c / R2: the three MPI drivers
@@ -96,9 +104,14 @@ def check(ctx):
                 check_equal(ctx, 'R2.discard_before', '%s:%s' % (before[0][0]['where'], name.replace('hep::', '')),
                             'calls skipped before the share (argument order calls, rank, world)',
                             nb[2], F.split_before(N, r, W))
-                check_equal(ctx, 'R2.discard_after', '%s:%s' % (after[0][0]['where'], name.replace('hep::', '')),
-                            'calls skipped after the share (argument order calls, sub_calls, rank, world)',
-                            na[2], F.split_after(N, F.split_sub_calls(N, r, W), r, W))
+                plain_a = sub(sub(N, F.split_before(N, r, W)), F.split_sub_calls(N, r, W))
+                if algebra.equal(algebra.minmax_to_ite(T.canon_idx(na[2])), algebra.minmax_to_ite(T.canon_idx(plain_a)))[0]:
+                    ctx.holds('R2.discard_after', '%s:%s' % (after[0][0]['where'], name.replace('hep::', '')),
+                              'calls skipped after the share = N - before(r) - sub(r) = N - before(r+1) (unclamped form)')
+                else:
+                    check_equal(ctx, 'R2.discard_after', '%s:%s' % (after[0][0]['where'], name.replace('hep::', '')),
+                                'calls skipped after the share (argument order calls, sub_calls, rank, world)',
+                                na[2], F.split_after(N, F.split_sub_calls(N, r, W), r, W))
             ctx.guard('R1.sub_calls', fsite(d), drv)
     ctx.count('mpi driver kernel call sites', nsites, 6)
     # no share, call count or stream position passes through a narrower integer type (they are
@@ -111,6 +124,10 @@ def check(ctx):
             def rn(f=f, name=name):
                 s, ex = summarise(p, f, opaque=(DRV_OPAQUE if name in MPI_DRIVERS else ()))
                 nar = [e for e, l in flat_effects(s.effects) if e['kind'] == 'narrow']
+                # a remainder modulo the number of ranks (an `int` by the MPI interface) fits into an int
+                nar = [e for e in nar if not (isinstance(e['operand'], tuple) and e['operand'][0] == 'imod' and
+                                              e['operand'][2] == sym('size()') and
+                                              (e.get('to') or '').replace('unsigned ', '') in ('int', 'long', 'long long'))]
                 if nar:
                     ctx.violation('R5.no_narrowing', '%s:%s' % (nar[0]['where'], name.replace('hep::', '')),
                                   'a call count / stream position is converted from %s to %s: values beyond the '
@@ -124,7 +141,7 @@ def check(ctx):
     # shared with C04: the per-call usage factor must be what the kernel really draws per call, and
     # rank / size must come from the communicator that was passed in (otherwise the shares do not tile)
     from .common import share
-    share(ctx, 'C04', 'R4/C04.', ['R2.usage', 'R8.'])
+    share(ctx, 'C04', 'R4/C04.', ['R2.usage', 'R8.', 'R1.generator_sequence'])
     # the usage predictor must agree with what generate_canonical consumes (shared with C10)
     share(ctx, 'C10', 'R6/C10.', ['R3.', 'R1.'])
 
